@@ -22,6 +22,9 @@ def harnesses(tier):
             scenario_harness("nested-forever-scheduler", Profile(
                 templates=("N12",), forever="free", forever_sched="free", perm="id", crit_job=False,
                 crit_sched=False), o, required_notes=req),
+            scenario_harness("nested-forever-scheduler-handlers", Profile(
+                templates=("N12",), forever_sched="free", sd="free", lat="free", perm="id", crit_job=False,
+                crit_sched=False, edges="none"), o, required_notes=req + ("propagated_cancellations",)),
         ]
     return [
         scenario_harness("flat4-forever-never", Profile(
